@@ -90,13 +90,16 @@ def nontrivial(case, model_obs):
 
 
 def signature(case, impl_obs, model_obs):
+    """scenario that failed (the op after the last completed observation) + kind of failure"""
     last = impl_obs[-1] if impl_obs else ""
-    sids = ",".join(str(o[0]) for o in case.ops if o)
-    if last.startswith("CRASH"):
-        return "tsan:%s:%s" % (sids, last.split()[1] if len(last.split()) > 1 else "crash")
-    if last == "HANG":
-        return "tsan:%s:HANG" % sids
-    return "tsan:%s:integrity" % sids
+    abnormal = last.startswith("CRASH") or last == "HANG"
+    done = len(impl_obs) - 1 if abnormal else len(impl_obs)
+    if abnormal:
+        sid = case.ops[done][0] if done < len(case.ops) and case.ops[done] else 0
+        kind = last.split()[1] if last.startswith("CRASH") and len(last.split()) > 1 else last
+        return "tsan:s%s:%s" % (sid, kind)
+    bad = [case.ops[i][0] for i, l in enumerate(impl_obs) if i < len(case.ops) and case.ops[i] and l.strip() == "1"]
+    return "tsan:s%s:integrity" % (bad[0] if bad else "?")
 
 
 PART = {"name": "tsan", "harness": "tsan_c03.cpp", "gen": gen, "compiler": "clang++",
@@ -114,7 +117,7 @@ def eval_obligations(ctx):
     open(path, "w").write(src)
     rc, o, e = vlib.sh("timeout 120 coqc -Q %s Cocls %s" % (vlib.COQ, path), cwd=ctx.tmp, timeout=150)
     names = ["complete", "p1", "p2_future", "p2_signal", "p2_mutex", "p3", "p4", "p5", "touch_subcr", "touch_mutex"]
-    vals = re.findall(r"\b(true|false)\b", o.split(":")[0] if rc == 0 else "")
+    vals = re.findall(r"\b(true|false)\b", o if rc == 0 else "")
     res = {}
     if rc != 0 or len(vals) < len(names):
         return None, (o + e)[-1500:]
@@ -151,6 +154,10 @@ def extra(ctx):
              "p2_signal": "c03_p2_signal_orders_ok", "p2_mutex": "c03_p2_mutex_orders_ok", "p3": "c03_p3_orders_ok", "p4": "c03_p4_orders_ok",
              "p5": "c03_p5_orders_ok", "touch_subcr": "c03_no_touch_after_publish", "touch_mutex": "c03_no_touch_after_publish",
              "lockset": "c03_guarded_state"}
+    if broken:
+        # Properties_C03.v stops compiling at the first failing side condition, so every theorem is reported undischarged;
+        # keep only the precise names (the side conditions evaluated one by one)
+        ctx.notes[:] = [n for n in ctx.notes if n.get("kind") != "proof"]
     for b in broken:
         ctx.notes.append({"kind": "side-condition", "theorem": label.get(b, b), "obligation": b,
                           "orders": INFO.get("orders"), "problems": INFO.get("problems"), "guard_problems": INFO.get("guard_problems")})
